@@ -108,7 +108,10 @@ def oracle_c08(sc, res):
                                   f"after transition {t.tid} of {S} taken although stop() returned at {stop_ret[T]}us, before the deadline {a.t_in + d_us}us"))
         fired[key] = fired.get(key, 0) + 1
         stale_seen[key] = stale_seen.get(key, False) or stale_possible
-        if fired[key] == 2:
+        rollback_between = any(l[SEQ] > a.seq_in and "rolling back" in (l[7] or "") for l in w.logs)
+        if fired[key] == 2 and not rollback_between:
+            # (a rolled-back transition re-arms the timers of the states it had begun to exit - C07 -
+            #  so a second expiry in the same activation is specified behaviour then)
             ncand = len(t.source.after.get(t.delay, []))
             vios.append(Violation("C08", "after-fired-twice",
                                   {"internal": t.internal, "candidates_gt1": ncand > 1, "stale_expiry_possible": stale_seen[key]},
@@ -691,6 +694,7 @@ def oracle_c04(sc, res):
             if n == 0 and status_ok:
                 vios.append(Violation("C04", "event-lost",
                                       {"engine": sc["engine"], "discard_logged": discard, "preempted": preempted,
+                                       "chain_break_logged": has_log(w, "chained self-raised"),
                                        "sent_during_start": t in during_start_tags},
                                       f"accepted event tag {t} (client {c}) was never processed"))
                 break
@@ -939,4 +943,163 @@ def stats_c09(sc, res):
             s["svc_" + r[6]] = s.get("svc_" + r[6], 0) + 1
         elif r[K] == "recv" and str(r[5]).startswith(("done.invoke.", "error.platform.")):
             s["completion_recv"] += 1
+    return s
+
+
+# ===========================================================================
+# C10 - completion
+# ===========================================================================
+
+def oracle_c10(sc, res):
+    w = Walk(sc, res)
+    m = w.model
+    vios = []
+    if w.aborted():
+        return vios
+    root = w.iid
+    start_ret = w.ops_ret.get(0)
+    if start_ret is None or (isinstance(start_ret[6], tuple) and start_ret[6][0] == "exc"):
+        return vios
+    owners = [n for n in m.by_id.values() if n.on_done is not None and n is not m.root]
+    cfg = set()
+    instants = {n.id: 0 for n in owners}   # completion instants so far
+    firings = {n.id: 0 for n in owners}    # onDone transitions so far
+    last_instant_seq = {}
+    at_recv = {}
+    done_status_seq = None
+    reported = set()
+    ambiguous = set()
+    outs_seen = {}
+    voids = {}
+    for r in res.trace:
+        k = r[K]
+        if k == "act" and r[4] == root and r[5].startswith(("en.", "ex.")):
+            sid = r[5][3:]
+            if r[5].startswith("ex."):
+                cfg.discard(sid)
+                if sid in instants:
+                    # leaving the owner voids completions whose done event has not been handled yet
+                    voids[sid] = (r[SEQ], instants[sid] - firings[sid])
+                    firings[sid] = instants[sid]
+                continue
+            cfg.add(sid)
+            F = m.node(sid)
+            if F is None or F.kind != "final":
+                continue
+            for n in owners:
+                if n.id not in cfg or not F.is_descendant_of(n):
+                    continue
+                strict = (F.parent is n) if n.kind == "compound" else m.strict_done(n, cfg)
+                recursive = m.is_done(n, cfg)
+                if strict != recursive:
+                    # the strict (direct child) and the implementation's recursive reading of "done"
+                    # disagree for this owner: the oracle stays silent about it (DESIGN C10 leniency)
+                    ambiguous.add(n.id)
+                if strict:
+                    instants[n.id] += 1
+                    last_instant_seq[n.id] = r[SEQ]
+                    outs_seen.setdefault(n.id, []).append(F.output)
+        elif k == "recv" and r[4] == root:
+            et = r[5]
+            if et.startswith("done.state."):
+                oid = et[len("done.state."):]
+                n = m.node(oid)
+                if n is not None and n.on_done is not None:
+                    at_recv[oid] = (oid in cfg and m.is_done(n, cfg), sorted(cfg), r[SEQ])
+                    outs = outs_seen.get(oid, [])
+                    if oid not in ambiguous and outs and r[7] not in outs:
+                        vios.append(Violation("C10", "done-data", {"engine": sc["engine"]},
+                                              f"{et} carries {r[7]!r}; outputs of the final states that completed {oid}: {outs}"))
+        elif k == "trans" and r[4] == root:
+            t = m.trans.get(r[5])
+            if t is not None and t.kind == "onDone":
+                A = t.source
+                st = at_recv.pop(A.id, None)
+                v = voids.get(A.id)
+                if v is not None and st is not None and v[0] > st[2]:
+                    firings[A.id] -= v[1]  # the owner was exited by this very onDone transition
+                    voids.pop(A.id)
+                firings[A.id] += 1
+                if firings[A.id] > instants[A.id] and ("twice", A.id) not in reported and A.id not in ambiguous:
+                    reported.add(("twice", A.id))
+                    strict_eq = True
+                    vios.append(Violation("C10", "ondone-more-than-completions", {"engine": sc["engine"], "kind": A.kind},
+                                          f"onDone of {A.id} taken {firings[A.id]} times but it completed only {instants[A.id]} times"))
+                if A.kind == "parallel" and st is not None and not st[0]:
+                    vios.append(Violation("C10", "parallel-ondone-while-region-not-final", {"engine": sc["engine"]},
+                                          f"onDone {t.tid} of parallel {A.id} taken while a region is not final (cfg when {t.event} was received: {st[1]})"))
+        elif k == "obs" and r[5] == root:
+            o = r[6]
+            if o["status"] != "running":
+                continue
+            for n in owners:
+                if n.id not in o["cfg"] or ("missing", n.id) in reported or n.id in ambiguous:
+                    continue
+                if not const_true_guard(sc, n.on_done.guard):
+                    continue
+                still_done = m.is_done(n, set(o["cfg"])) and (n.kind == "compound" or m.strict_done(n, set(o["cfg"])))
+                if still_done and instants[n.id] > firings[n.id]:
+                    reported.add(("missing", n.id))
+                    vios.append(Violation(
+                        "C10", "ondone-missing",
+                        {"engine": sc["engine"], "kind": n.kind,
+                         "targetless_ondone_below": any(x.on_done is not None and x.on_done.target is None
+                                                        for x in m.by_id.values() if x.is_descendant_of(n)),
+                         "discard_logged": has_log(w, "Discarding") or has_log(w, "chained self-raised")},
+                        f"{n.id} completed {instants[n.id]} times (last at seq {last_instant_seq.get(n.id)}), is still done and active at the "
+                        f"quiescent observation {r[4]} (seq {r[SEQ]}) but its onDone ran only {firings[n.id]} times"))
+        elif k == "done-hook" and r[4] == root:
+            if done_status_seq is not None:
+                vios.append(Violation("C10", "done-twice", {"engine": sc["engine"]}, "on_done plugin hook called twice"))
+            done_status_seq = r[SEQ]
+    # ---- top level
+    top_finals = [c for c in m.root.children if c.kind == "final"]
+    fin = w.final_obs("final")
+    entered_top_final = None
+    for seq, sid in w.entry_seq:
+        n = m.node(sid)
+        if n is not None and n.kind == "final" and n.parent is m.root:
+            entered_top_final = (seq, n)
+            break
+    if entered_top_final is not None and fin is not None:
+        seq0, F = entered_top_final
+        if fin["status"] not in ("done", "stopped", "error"):
+            vios.append(Violation("C10", "top-final-not-done", {"engine": sc["engine"], "status": fin["status"]},
+                                  f"top-level final state {F.id} was entered but status is {fin['status']}"))
+        elif fin["status"] == "done":
+            want = sc["machine"].get("output") if sc["machine"].get("output") is not None else F.output
+            if fin["output"] != want:
+                vios.append(Violation("C10", "machine-output", {"engine": sc["engine"], "machine_level": sc["machine"].get("output") is not None},
+                                      f"status done, output {fin['output']!r}, expected {want!r}"))
+            if done_status_seq is None:
+                vios.append(Violation("C10", "done-hook-missing", {"engine": sc["engine"]}, "status done but on_done hook never called"))
+        # events sent after completion are ignored: no record of any kind in response
+        if done_status_seq is not None:
+            quiet_from = None
+            for r in res.trace:
+                if r[K] == "op-call" and r[5] in ("send", "send_events") and r[SEQ] > done_status_seq and r[8] == "done":
+                    quiet_from = r[SEQ]
+                    break
+            if quiet_from is not None:
+                for r in res.trace:
+                    if r[SEQ] > quiet_from and r[K] in ("recv", "act", "trans", "gcall", "ucall") and (r[K] in ("gcall", "ucall") or r[4] == root):
+                        vios.append(Violation("C10", "activity-after-done", {"engine": sc["engine"], "kind": r[K]},
+                                              f"after completion an event was sent (seq {quiet_from}) and {r[K]} {r[4:7]} followed at seq {r[SEQ]}"))
+                        break
+    after_stop = w.final_obs("after-stop")
+    if after_stop is not None and after_stop["census"]:
+        vios.append(Violation("C10", "alive-after-stop", {"engine": sc["engine"], "status_before": fin["status"] if fin else None},
+                              f"stop() left {after_stop['census']} alive"))
+    return vios
+
+
+def stats_c10(sc, res):
+    s = {"final_entries": 0, "ondone_taken": 0, "top_level_done": 0, "sends_after_done": 0}
+    for r in res.trace:
+        if r[K] == "trans" and str(r[7]).startswith("done.state."):
+            s["ondone_taken"] += 1
+        elif r[K] == "done-hook":
+            s["top_level_done"] += 1
+        elif r[K] == "op-call" and r[5] == "send" and r[8] == "done":
+            s["sends_after_done"] += 1
     return s
